@@ -232,6 +232,7 @@ CORE_FILES = [
     "job_shop_lib/graphs/_node.py",
     "job_shop_lib/graphs/_job_shop_graph.py",
     "job_shop_lib/graphs/_build_disjunctive_graph.py",
+    "job_shop_lib/graphs/_build_agent_task_graph.py",
     "job_shop_lib/graphs/graph_updaters/_utils.py",
 ]
 
